@@ -144,4 +144,26 @@ ASSUME MinInt32Corner ==
   /\ SaramaHashOf(W32(65535, 65534), 7) = 2 /\ SaramaReferenceHashOf(W32(65535, 65534), 7) = 0
   /\ RdkafkaConsistentOf(AllOnes, 7) = 3           \* 4294967295 mod 7 = 3
   /\ RdkafkaConsistentOf(W32(32768, 0), 3) = 2     \* 2147483648 mod 3 = 2
+
+(* Keys whose hash values are the corners of the 32-bit range (found by an  *)
+(* exhaustive search over 5-byte keys; the definitions of Hash32.tla        *)
+(* confirm them here).  The engine sends exactly these keys to the real     *)
+(* balancers as directed vectors: int32 -2^31 (negation overflow), -1, 0,   *)
+(* 2^31-1, -2^31+1.                                                         *)
+ASSUME CornerKeys ==
+  /\ Fnv1a(<<64, 0, 218, 76, 59>>) = W32(0, 0)
+  /\ Fnv1a(<<126, 0, 89, 10, 89>>) = W32(32767, 65535)
+  /\ Fnv1a(<<226, 0, 235, 108, 48>>) = W32(32768, 0)
+  /\ Fnv1a(<<158, 0, 141, 9, 146>>) = W32(32768, 1)
+  /\ Fnv1a(<<184, 0, 131, 36, 71>>) = AllOnes
+  /\ Crc32IEEE(<<114, 0, 245, 208, 1>>) = W32(0, 0)
+  /\ Crc32IEEE(<<253, 0, 17, 196, 181>>) = W32(32767, 65535)
+  /\ Crc32IEEE(<<172, 0, 133, 142, 59>>) = W32(32768, 0)
+  /\ Crc32IEEE(<<200, 0, 38, 32, 170>>) = W32(32768, 1)
+  /\ Crc32IEEE(<<35, 0, 97, 154, 143>>) = AllOnes
+  /\ Murmur2(<<43, 0, 36, 7, 246>>) = W32(0, 0)
+  /\ Murmur2(<<137, 0, 125, 124, 254>>) = W32(32767, 65535)
+  /\ Murmur2(<<254, 4, 6, 97, 209>>) = W32(32768, 0)
+  /\ Murmur2(<<159, 0, 220, 121, 81>>) = W32(32768, 1)
+  /\ Murmur2(<<142, 0, 205, 11, 164>>) = AllOnes
 =============================================================================
